@@ -8,16 +8,12 @@ pub mod h2 {
    use crate::common::*;
    ascent! {
       pub struct Prog;
-      relation r0(i64, i64, i64);
+      relation r0(i64);
       relation r1(i64, i64, i64);
-      relation r2(i64, i64, i64);
-      relation r3(i64, i64, i64);
-      relation r4(i64, i64, i64);
-      r4(((*v0) + 1), v0, v0) <-- r3(v0, 0, 0), if ((*v0) < 6);
-      r2(v3, v3, v2) <-- if let Some(v0) = Some(4), r1(v1, v2, v3);
-      r0(v3, v4, 3) <-- r2(v0, v1, 0), r4(((*v0) + 1), v2, v3), let v4 = (*v1);
-      r3(2, v0, ((*v0) + 1)) <-- r0(3, v0, v1), if ((*v0) < 6);
-      r2(v2, 2, 1) <-- r4(v0, 1, v1), r0(((*v0) + 0), v2, 0);
+      relation r2(i64);
+      relation r3(i64, i64);
+      r3(v0, v8) <-- if let Some(v9) = Some(3), r3(v0, v1), r3(v1, v9) let v8 = ((*v0) + 1);
+      r3(((*v1) + 1), 1) <-- r0(0), r3(v0, v1), if ((*v1) < 3), r0(1), if ((*v1) < 6);
    }
    pub struct Inst { p: Prog, pool: Option<ascent::rayon::ThreadPool> }
    pub fn make(pool: Option<usize>) -> Box<dyn Driver> {
@@ -28,11 +24,10 @@ pub mod h2 {
    impl Driver for Inst {
       fn load(&mut self, rel: usize, rows: &[Sexp], append: bool) -> Option<()> {
          match rel {
-         0 => { let v: Vec<(i64,i64,i64,)> = parse_rows(rows)?; if append { self.p.r0.extend(v) } else { self.p.r0 = v } },
+         0 => { let v: Vec<(i64,)> = parse_rows(rows)?; if append { self.p.r0.extend(v) } else { self.p.r0 = v } },
          1 => { let v: Vec<(i64,i64,i64,)> = parse_rows(rows)?; if append { self.p.r1.extend(v) } else { self.p.r1 = v } },
-         2 => { let v: Vec<(i64,i64,i64,)> = parse_rows(rows)?; if append { self.p.r2.extend(v) } else { self.p.r2 = v } },
-         3 => { let v: Vec<(i64,i64,i64,)> = parse_rows(rows)?; if append { self.p.r3.extend(v) } else { self.p.r3 = v } },
-         4 => { let v: Vec<(i64,i64,i64,)> = parse_rows(rows)?; if append { self.p.r4.extend(v) } else { self.p.r4 = v } },
+         2 => { let v: Vec<(i64,)> = parse_rows(rows)?; if append { self.p.r2.extend(v) } else { self.p.r2 = v } },
+         3 => { let v: Vec<(i64,i64,)> = parse_rows(rows)?; if append { self.p.r3.extend(v) } else { self.p.r3 = v } },
             _ => return None,
          }
          Some(())
@@ -40,7 +35,7 @@ pub mod h2 {
       fn run(&mut self) { match &self.pool { Some(pl) => { let p = &mut self.p; pl.install(|| p.run()) }, None => self.p.run() } }
       fn run_here(&mut self) { self.p.run() }
       fn run_timeout(&mut self, k: usize) -> Option<bool> { let _ = k; None }
-      fn dump(&self) -> String { vec![dump_rel(0, self.p.r0.iter().map(Row::render).collect()), dump_rel(1, self.p.r1.iter().map(Row::render).collect()), dump_rel(2, self.p.r2.iter().map(Row::render).collect()), dump_rel(3, self.p.r3.iter().map(Row::render).collect()), dump_rel(4, self.p.r4.iter().map(Row::render).collect())].join(" | ") }
+      fn dump(&self) -> String { vec![dump_rel(0, self.p.r0.iter().map(Row::render).collect()), dump_rel(1, self.p.r1.iter().map(Row::render).collect()), dump_rel(2, self.p.r2.iter().map(Row::render).collect()), dump_rel(3, self.p.r3.iter().map(Row::render).collect())].join(" | ") }
       fn iters(&self) -> String { format!("iters {}", self.p.scc_iters.iter().map(|x| x.to_string()).collect::<Vec<_>>().join(" ")) }
    }
 }
@@ -56,9 +51,17 @@ pub mod h10 {
       relation r0(i64, i64);
       relation r1(i64, i64);
       relation r2(i64, i64);
-      r2(1, 2) <-- r0(3, 0);
-      r2(v0, v2) <-- r2(v0, v1), r0(v1, v2), r2(v2, v3);
-      r2(v2, 1) <-- if let Some(v0) = None::<i64>, r2(v1, v2);
+      relation r3(i64, i64);
+      relation r4(i64);
+      r1(v1, v1) <-- r0(v0, v1), if let Some(v2) = Some((*v0));
+      r2(0, ((*v1) + 1)) <-- for v0 in 2..3, r1((v0 + 0), v1), if ((*v1) < 6);
+      r3((v0 + 1), v0) <-- r2(2, 0), for v0 in 0..1, r3(v0, 2), if (v0 < 6);
+      r4(v2) <-- if let Some(v0) = Some(2), r3(v1, v2) if (v0 <= 5), if let Some(v3) = Some((*v2)), r2((v3 + 0), v2);
+      r4(v0) <-- r1(v0, v1) if ((*v0) < 4), r3(v1, v2) if ((*v2) != (*v1));
+      r4(v0) <-- for v9 in 0..2, r2(v0, v1), r2(v9, v1);
+      r4(v0) <-- r3(v0, 2);
+      r4(v1) <-- if let Some(v0) = Some(1), r4(v1), if ((*v1) != 4), r0(v1, v2);
+      r2(3, v3) <-- if let Some(v0) = Some(3), r0(v1, v2), r4(v3);
    }
    pub struct Inst { p: Prog, pool: Option<ascent::rayon::ThreadPool> }
    pub fn make(pool: Option<usize>) -> Box<dyn Driver> {
@@ -72,6 +75,8 @@ pub mod h10 {
          0 => { let v: Vec<(i64,i64,)> = parse_rows(rows)?; if append { self.p.r0.extend(v) } else { self.p.r0 = v } },
          1 => { let v: Vec<(i64,i64,)> = parse_rows(rows)?; if append { self.p.r1.extend(v) } else { self.p.r1 = v } },
          2 => { let v: Vec<(i64,i64,)> = parse_rows(rows)?; if append { self.p.r2.extend(v) } else { self.p.r2 = v } },
+         3 => { let v: Vec<(i64,i64,)> = parse_rows(rows)?; if append { self.p.r3.extend(v) } else { self.p.r3 = v } },
+         4 => { let v: Vec<(i64,)> = parse_rows(rows)?; if append { self.p.r4.extend(v) } else { self.p.r4 = v } },
             _ => return None,
          }
          Some(())
@@ -79,7 +84,7 @@ pub mod h10 {
       fn run(&mut self) { match &self.pool { Some(pl) => { let p = &mut self.p; pl.install(|| p.run()) }, None => self.p.run() } }
       fn run_here(&mut self) { self.p.run() }
       fn run_timeout(&mut self, k: usize) -> Option<bool> { let _ = k; None }
-      fn dump(&self) -> String { vec![dump_rel(0, self.p.r0.iter().map(Row::render).collect()), dump_rel(1, self.p.r1.iter().map(Row::render).collect()), dump_rel(2, self.p.r2.iter().map(Row::render).collect())].join(" | ") }
+      fn dump(&self) -> String { vec![dump_rel(0, self.p.r0.iter().map(Row::render).collect()), dump_rel(1, self.p.r1.iter().map(Row::render).collect()), dump_rel(2, self.p.r2.iter().map(Row::render).collect()), dump_rel(3, self.p.r3.iter().map(Row::render).collect()), dump_rel(4, self.p.r4.iter().map(Row::render).collect())].join(" | ") }
       fn iters(&self) -> String { format!("iters {}", self.p.scc_iters.iter().map(|x| x.to_string()).collect::<Vec<_>>().join(" ")) }
    }
 }
@@ -92,12 +97,19 @@ pub mod hl0 {
    use crate::common::*;
    ascent! {
       pub struct Prog;
-      relation r0(i64);
-      relation r1(i64);
-      lattice r2(Dual<i64>);
-      r2(Dual((*v0))) <-- r1(v0);
-      r2(Dual(((v0.0) + 2))) <-- r2(v0), r1(v1);
-      r1(0) <-- r2(v0);
+      relation r0(i64, i64);
+      relation r1(i64, i64);
+      lattice r2(i64, Set<i64>);
+      lattice r3(Option<i64>);
+      r2(v0, Set::singleton((*v1))) <-- r1(v0, v1);
+      r2(v1, v2) <-- r2(v0, v2), r1(v0, v1);
+      r2(v0, Set::singleton(0)) <-- r0(v0, v0);
+      r2(v1, v0) <-- r2(3, v0), r0(v1, 1);
+      r2(v0, Set::singleton(1)) <-- r2(v0, v1), r2(v2, v3);
+      r3(Some((*v0))) <-- r0(v0, v0);
+      r3(Some((*v2))) <-- r3(v0), r1(v1, v2) if ((*v2) < 5);
+      r1(v1, v0) <-- r0(v0, v1);
+      r1(((*v1) + 1), v2) <-- r1(v0, v0), r1(v1, v2), if ((*v1) < 6);
    }
    pub struct Inst { p: Prog, pool: Option<ascent::rayon::ThreadPool> }
    pub fn make(pool: Option<usize>) -> Box<dyn Driver> {
@@ -108,9 +120,10 @@ pub mod hl0 {
    impl Driver for Inst {
       fn load(&mut self, rel: usize, rows: &[Sexp], append: bool) -> Option<()> {
          match rel {
-         0 => { let v: Vec<(i64,)> = parse_rows(rows)?; if append { self.p.r0.extend(v) } else { self.p.r0 = v } },
-         1 => { let v: Vec<(i64,)> = parse_rows(rows)?; if append { self.p.r1.extend(v) } else { self.p.r1 = v } },
-         2 => { let v: Vec<(Dual<i64>,)> = parse_rows(rows)?; if append { self.p.r2.extend(v) } else { self.p.r2 = v } },
+         0 => { let v: Vec<(i64,i64,)> = parse_rows(rows)?; if append { self.p.r0.extend(v) } else { self.p.r0 = v } },
+         1 => { let v: Vec<(i64,i64,)> = parse_rows(rows)?; if append { self.p.r1.extend(v) } else { self.p.r1 = v } },
+         2 => { let v: Vec<(i64,Set<i64>,)> = parse_rows(rows)?; if append { self.p.r2.extend(v) } else { self.p.r2 = v } },
+         3 => { let v: Vec<(Option<i64>,)> = parse_rows(rows)?; if append { self.p.r3.extend(v) } else { self.p.r3 = v } },
             _ => return None,
          }
          Some(())
@@ -118,7 +131,7 @@ pub mod hl0 {
       fn run(&mut self) { match &self.pool { Some(pl) => { let p = &mut self.p; pl.install(|| p.run()) }, None => self.p.run() } }
       fn run_here(&mut self) { self.p.run() }
       fn run_timeout(&mut self, k: usize) -> Option<bool> { let _ = k; None }
-      fn dump(&self) -> String { vec![dump_rel(0, self.p.r0.iter().map(Row::render).collect()), dump_rel(1, self.p.r1.iter().map(Row::render).collect()), dump_rel(2, self.p.r2.iter().map(Row::render).collect())].join(" | ") }
+      fn dump(&self) -> String { vec![dump_rel(0, self.p.r0.iter().map(Row::render).collect()), dump_rel(1, self.p.r1.iter().map(Row::render).collect()), dump_rel(2, self.p.r2.iter().map(Row::render).collect()), dump_rel(3, self.p.r3.iter().map(Row::render).collect())].join(" | ") }
       fn iters(&self) -> String { format!("iters {}", self.p.scc_iters.iter().map(|x| x.to_string()).collect::<Vec<_>>().join(" ")) }
    }
 }
